@@ -24,6 +24,7 @@ func init() {
 			"S7 some function reachable from Ast.EquivalentCall reads the members of struct types (struct-typed parameters are not compared by name only). " +
 			"S8 on the error edge of Pipestance.Lock no pipestance is returned. " +
 			"S9 the lock file is removed only behind readOnly() == false; S10 the pipestance-level metadata cache is rescanned only by Lock or behind readOnly()/the readOnly parameter being false (Immortalize tabled). " +
+			"S11 re-attach applies os.ExpandEnv when InvokePipeline does. " +
 			"NOT decided: completeness (that cosmetic edits are accepted), races between two simultaneous first starts.",
 		Assumptions: commonAssumptions,
 	}
@@ -44,6 +45,7 @@ func runC15(c *an.Ctx) {
 	ruleS8(c)
 	ruleS9(c)
 	ruleS10(c)
+	ruleS11(c)
 }
 
 func relationFuncs(c *an.Ctx) []*ssa.Function {
